@@ -44,6 +44,9 @@ pub struct ModelSpec {
     pub props: Vec<PropSpec>,
     /// panic when this state is expanded (`actions` is called on it)
     pub panic_at: Option<u64>,
+    /// panic when the thread with this name expands any non-initial state
+    #[serde(default)]
+    pub panic_thread: Option<String>,
 }
 
 pub struct BigModel {
@@ -142,6 +145,11 @@ impl Model for BigModel {
     fn actions(&self, s: &u64, actions: &mut Vec<u8>) {
         if self.spec.panic_at == Some(*s) {
             panic!("model code panics at the seeded state");
+        }
+        if let Some(t) = &self.spec.panic_thread {
+            if self.layer_of(*s) >= 1 && std::thread::current().name() == Some(t.as_str()) {
+                panic!("model code panics in one worker");
+            }
         }
         for a in 0..self.n_actions(*s) {
             actions.push(a);
@@ -511,8 +519,8 @@ pub fn run_child(cfg: &RunCfg) -> RunOut {
     out.order_digest = digest;
     out.visited_distinct = count.len();
     out.dup_visits = count.values().filter(|&&c| c > 1).count();
-    out.visited_not_reachable = count.keys().filter(|s| !dist.contains_key(s)).count();
     if dist.len() < cfg.closure_cap {
+        out.visited_not_reachable = count.keys().filter(|s| !dist.contains_key(s)).count();
         out.missing = dist.keys().filter(|s| !count.contains_key(s)).count();
         if let Some(d) = cfg.target_max_depth {
             out.missing_within_depth = dist.iter().filter(|(s, ds)| (**ds as usize) + 1 < d && !count.contains_key(s)).count();
